@@ -217,6 +217,7 @@ func VerifC03dConnLifecycle() {
 	held := conn.rc.stat()
 	wasAllow := conn.isAllowlisted
 	err = conn.SetPeer(vC03peerID)
+	edgesAfterRefusal := 2
 	vAssert(conn.rc.stat() == held, "setpeer-does-not-change-what-the-conn-holds")
 	if err != nil {
 		vCover("setpeer-refused")
@@ -224,8 +225,8 @@ func VerifC03dConnLifecycle() {
 			vCover("transfer-refused")
 		}
 		vAssert(conn.peer == nil, "refused-setpeer-leaves-no-peer")
-		vAssert(len(conn.edges) == 2, "refused-setpeer: still in a consistent non-empty edge set")
 		vAssert(w.frame(conn.resourceScope), "refused-setpeer: still charged exactly once")
+		edgesAfterRefusal = len(conn.edges) // asserted last, so that the known finding there masks nothing else on the path
 	} else {
 		vCover("setpeer-ok")
 		if wasAllow && !conn.isAllowlisted {
@@ -254,6 +255,7 @@ func VerifC03dConnLifecycle() {
 	}
 	vAssert(refs, "reference-counts-not-negative")
 	vAssert(w.r.transient.refCnt == 1 && w.r.allowlistedTransient.refCnt == 1, "transient-references-balanced")
+	vAssert(edgesAfterRefusal == 2, "refused-setpeer: still in a consistent non-empty edge set")
 }
 
 func VerifC03dStreamLifecycle() {
